@@ -356,21 +356,28 @@ func (s *Storer) GetRdbWriter(r io.Reader, offset int64, rdbSize int64) (*RdbWri
 		left:    offset,
 		rdbSize: rdbSize,
 	}
-	s.dataSet = newDataSet(rdb, nil)
+	ds := newDataSet(rdb, nil)
+	s.dataSet = ds
 	rdb.AddWriter(w)
 	s.dataSetMux.Unlock()
 
 	obr := &observerProxy{
-		close: s.newRdbWCloseObserver(w, rdb),
+		close: s.newRdbWCloseObserver(w, rdb, ds),
 	}
 	w.SetObserver(obr)
 
 	return w, nil
 }
 
-func (s *Storer) newRdbWCloseObserver(w *RdbWriter, rdb *dataSetRdb) func(args ...interface{}) {
+func (s *Storer) newRdbWCloseObserver(w *RdbWriter, rdb *dataSetRdb, ds *dataSet) func(args ...interface{}) {
 	return func(args ...interface{}) {
 		rdb.DelWriter(w)
+		// an incompletely received rdb has been removed from disk, stop offering it
+		if len(args) > 2 {
+			if failed, ok := args[2].(bool); ok && failed && ds.GetRdb() == rdb {
+				ds.SetRdb(nil)
+			}
+		}
 	}
 }
 
